@@ -34,12 +34,18 @@ func universe() []reporter.Report {
 	a, b, c := ea[0], ea[1], eb[0]
 	return []reporter.Report{
 		mk(a, "promql/series", "metric missing", "details one", checks.Bug, 5, 5, true),
-		mk(a, "promql/series", "other metric missing", "details two", checks.Bug, 5, 5, true), // same check, same lines: shares a comment
-		mk(a, "alerts/for", "for too short", "", checks.Warning, 5, 5, false),                 // other check on those lines
-		mk(c, "promql/aggregate", "label removed", "", checks.Warning, 5, 5, true),            // second file
-		mk(b, "promql/series", "metric missing", "details one", checks.Bug, 8, 8, true),       // the same problem on another rule ("moved" / duplicate)
-		mk(a, "promql/series", "metric missing", "details three", checks.Bug, 5, 5, true),     // same summary as the first, different details
+		mk(a, "promql/series", "other metric missing", "details two", checks.Bug, 5, 5, true),            // same check, same lines: shares a comment
+		mk(a, "alerts/for", "for too short", "", checks.Warning, 5, 5, false),                            // other check on those lines
+		mk(c, "promql/aggregate", "label removed", "", checks.Warning, 5, 5, true),                       // second file
+		mk(b, "promql/series", "metric missing", "details one", checks.Bug, 8, 8, true),                  // the same problem on another rule ("moved" / duplicate)
+		mk(a, "promql/series", "metric missing", "details three", checks.Bug, 5, 5, true),                // same summary as the first, different details
+		before(mk(a, "rule/dependency", "rule removed but still used", "", checks.Warning, 5, 5, false)), // anchored on the old side of the diff, same line
 	}
+}
+
+func before(r reporter.Report) reporter.Report {
+	r.Problem.Anchor = checks.AnchorBefore
+	return r
 }
 
 func body(c *explore.Chooser) *explore.Case {
@@ -120,7 +126,13 @@ func githubBody(c *explore.Chooser) *explore.Case {
 	patch := []string{"all-added", "partial"}[c.Free(2, "patch")]
 	showDups := c.Free(2, "showDuplicates") == 1
 	all := universe()
-	u := []reporter.Report{all[0], all[1], all[2], all[4], all[3]} // shared comment, other check same lines, problem on an unmodified line (8), second file
+	// shared comment, other check same lines, problem on an unmodified line (8), second file; with the partial patch
+	// a problem anchored on the old side of the diff at the line of the first ones (old and new numbering differ
+	// there) replaces the other-check one - a removed rule cannot sit in a file that is new in the pull request
+	u := []reporter.Report{all[0], all[1], all[2], all[4], all[3]}
+	if patch == "partial" {
+		u = []reporter.Report{all[0], all[1], all[6], all[4], all[3]}
+	}
 	patches := map[string]string{u[0].Path.SymlinkTarget: reporter.VerifGHPatch(patch), u[4].Path.SymlinkTarget: reporter.VerifGHPatch("all-added")}
 	foreign := reporter.VerifComment{Path: u[0].Path.SymlinkTarget, Line: 4, Text: "a comment by somebody else\n"}
 	eq := reporter.VerifPendingFor(u[:1], showDups)
@@ -149,7 +161,7 @@ func main() {
 	reporter.VerifTick = explore.Heartbeat
 	explore.Main(&explore.Config{
 		Property: "C17", Level: "model_checking",
-		Rule: "for each parameter cell (maxComments in {1,2,50} x reporter can/cannot delete x showDuplicates) a breadth-first search to closure over comment-store states: events run(R) for all 32 subsets R of each of two 5-problem universes drawn from (two problems of one check on the same lines, a third with the same summary but other details, another check on those lines, a second file, the same problem on another rule), initial stores {empty, stale pint comment, comment already equal to a pending one, both}; every transition calls the real reporter.Submit on a store whose equality / budget / deletion rules are the real GitLab and GitHub methods; budget, no-duplicate, coverage, stale-removal, idempotence and convergence invariants on every transition; platform layer: the same search through the real GitLabReporter (List/Create/Delete/Summary over HTTP) against a stateful fake of the merge-request discussions API, 3-problem universe (4 at thorough), maxComments in {1,50} x showDuplicates, initial stores {empty, stale pint thread, thread equal to a pending comment, another user's comment with the same text, stale thread with a reply + a general comment}, environment events reply(thread) and system-note(thread) on pint's threads, plus foreign-discussion-untouched and API-use invariants; and through the real GithubReporter (Destinations/List/Create/IsEqual with its line fixing/Summary) against a stateful fake of the review-comments API: 5-problem universe incl. a problem on an unmodified line, patch of the first file in {all lines added, only lines 4-5 modified}, maxComments in {1,50} x showDuplicates, initial stores {empty, somebody else's comment, a comment equal to a pending one}",
+		Rule: "for each parameter cell (maxComments in {1,2,50} x reporter can/cannot delete x showDuplicates) a breadth-first search to closure over comment-store states: events run(R) for all 32 subsets R of each of two 5-problem universes drawn from (two problems of one check on the same lines, a third with the same summary but other details, another check on those lines, a second file, the same problem on another rule), initial stores {empty, stale pint comment, comment already equal to a pending one, both}; every transition calls the real reporter.Submit on a store whose equality / budget / deletion rules are the real GitLab and GitHub methods; budget, no-duplicate, coverage, stale-removal, idempotence and convergence invariants on every transition; platform layer: the same search through the real GitLabReporter (List/Create/Delete/Summary over HTTP) against a stateful fake of the merge-request discussions API, 3-problem universe (4 at thorough), maxComments in {1,50} x showDuplicates, initial stores {empty, stale pint thread, thread equal to a pending comment, another user's comment with the same text, stale thread with a reply + a general comment}, environment events reply(thread) and system-note(thread) on pint's threads, plus foreign-discussion-untouched and API-use invariants; and through the real GithubReporter (Destinations/List/Create/IsEqual with its line fixing/Summary) against a stateful fake of the review-comments API: 5-problem universe incl. a problem on an unmodified line and (partial patch) one anchored on the old side of the diff, patch of the first file in {all lines added, only lines 4-5 modified}, maxComments in {1,50} x showDuplicates, initial stores {empty, somebody else's comment, a comment equal to a pending one}",
 		Assumptions: []string{
 			"cells space: the store is an in-memory Commenter whose List only returns pint's own comments; which comments are pint's own is decided by the platform code, covered by the gitlab space (GitHub's List does not filter by author and cannot delete, so it has no such decision)",
 			"gitlab space: discussions that are not pint's are kept as a set (List skips them, so their multiplicity cannot influence a run); at most one reply and one system note per thread",
